@@ -289,6 +289,7 @@ def _run_system(args):
 
 def run(ctx, replay=None):
     lib()
+    ctx.notes["reflectors_certified_by_TLC"] = E.check_against_tlc(ctx)
     thorough = ctx.tier == "thorough"
     nmax = 6 if thorough else 4
     ctx.assumptions += [
